@@ -254,7 +254,21 @@ func (c *c06Ctx) q(k *big.Int) *c06Opnd { return c.op(c.s.g2, c.r2, k) }
 
 func (c *c06Ctx) pair(p, q *c06Opnd) kyber.Point {
 	c.r.NoteAdd("pairings_computed", 1)
-	return c.s.ps.S.Pair(p.mk(), q.mk())
+	P, Q := p.mk(), q.mk()
+	res := c.s.ps.S.Pair(P, Q)
+	c.intact("Pair", []kyber.Point{P, Q}, []*c06Opnd{p, q})
+	return res
+}
+
+// intact checks that a pairing call left its operands unchanged (compared with freshly rebuilt twins).
+func (c *c06Ctx) intact(call string, live []kyber.Point, ops []*c06Opnd) {
+	for i, o := range ops {
+		twin := o.mk()
+		c.r.Eval("operand-intact/"+call, c.s.name+"|"+c06Desc(ops)+fmt.Sprint(i), true)
+		if !live[i].Equal(twin) || !twin.Equal(live[i]) || string(groups.Enc(live[i])) != string(groups.Enc(twin)) {
+			c.r.Violation("C06/"+c.s.name+"/"+call+"/operand-modified", call+" changed one of its operands", c.detail(ops, map[string]any{"operand_index": i, "after": mon.Hex(groups.Enc(live[i])), "expected": mon.Hex(groups.Enc(twin))}))
+		}
+	}
 }
 
 func c06Cat(ops []*c06Opnd) string {
@@ -699,7 +713,12 @@ func c06Validate(c *c06Ctx) {
 			lhs := new(big.Int).Mul(p1.k, p2.k)
 			rhs := new(big.Int).Mul(i1.k, i2.k)
 			truth := c.modq(lhs.Sub(lhs, rhs)).Sign() == 0
-			vp := S.ValidatePairing(p1.mk(), p2.mk(), i1.mk(), i2.mk())
+			live := []kyber.Point{p1.mk(), p2.mk(), i1.mk(), i2.mk()}
+			vp := S.ValidatePairing(live[0], live[1], live[2], live[3])
+			c.intact("ValidatePairing", live, ops)
+			if again := S.ValidatePairing(live[0], live[1], live[2], live[3]); again != vp {
+				r.Violation("C06/"+s.name+"/ValidatePairing/not-repeatable", "ValidatePairing on the same operand objects returned a different answer the second time", c.detail(ops, map[string]any{"first": vp, "second": again}))
+			}
 			l, rr := c.pair(p1, p2), c.pair(i1, i2)
 			eq, eq2 := l.Equal(rr), rr.Equal(l)
 			c.seen.add(s.name + "/validate")
